@@ -15,6 +15,13 @@ from common import MachineryError, NCPU, WORK, printed, run_tlc, tlc_error_excer
 
 def _worker(case):
     import dynrun
+    if "traj" in case:
+        try:
+            return dynrun.run_trajectory(case)
+        except dynrun.LibraryError as e:   # the library failed while building / compiling the trajectory's function
+            rec = dynrun.run_case({k: v for k, v in case.items() if k != "traj"})
+            rec["obs"]["steps"].append({"engine": "trajectory", "ok": False, "err": str(e)})
+            return rec
     return dynrun.run_case(case)
 
 
@@ -24,7 +31,11 @@ def execute(cases: list[dict], procs: int = NCPU) -> list[dict]:
         return []
     ctx = mp.get_context("spawn")
     with ctx.Pool(min(procs, max(1, len(cases)))) as pool:
-        return pool.map(_worker, cases, chunksize=max(1, len(cases) // (procs * 8)))
+        res = pool.map(_worker, cases, chunksize=max(1, len(cases) // (procs * 8)))
+    out = []
+    for r in res:   # a trajectory case expands into one record per step
+        out += r if isinstance(r, list) else [r]
+    return out
 
 
 def validate(records: list[dict], shards: int = NCPU, tag: str = "dyn", timeout: int = 3600) -> list[dict]:
